@@ -80,8 +80,10 @@ func checkCompositeLiteral(
 		return nil
 	}
 
+	// Identity, not spelling: look through aliases before and after removing the pointer
+	t = types.Unalias(t)
 	if ptr, ok := t.(*types.Pointer); ok {
-		t = ptr.Elem()
+		t = types.Unalias(ptr.Elem())
 	}
 
 	named, ok := t.(*types.Named)
@@ -140,8 +142,10 @@ func checkNewCall(
 		return nil
 	}
 
+	// Identity, not spelling: look through aliases before and after removing the pointer
+	t = types.Unalias(t)
 	if ptr, ok := t.(*types.Pointer); ok {
-		t = ptr.Elem()
+		t = types.Unalias(ptr.Elem())
 	}
 
 	named, ok := t.(*types.Named)
@@ -210,6 +214,9 @@ func checkVarDeclaration(
 			if t == nil {
 				continue
 			}
+
+			// Identity, not spelling: look through aliases
+			t = types.Unalias(t)
 
 			// Skip pointer types - var p *Struct just creates a nil pointer, not an instance
 			if _, ok := t.(*types.Pointer); ok {
